@@ -166,6 +166,33 @@ pub fn verify(case: &Value, reg: &Registry, scratch: &Path, idx: usize) -> Value
         };
     }
 
+    // optional: another verification that is already under way on a second thread of this process when
+    // the case's own verification runs (its own link directory, the same trusted keys, the same working
+    // directory); it is started here, before the optional wait, and joined after the case's runs
+    let mut background: Option<std::thread::JoinHandle<Value>> = None;
+    if let Some(bg) = case.get("background") {
+        let bg_links = root.join("bg_links");
+        materialise(&bg_links, &bg["files"]);
+        let bg_text = bg["layout"].as_str().expect("harness: background layout text").to_string();
+        let bg_dir = bg_links.to_str().unwrap().to_string();
+        let bg_pairs = pairs.clone();
+        background = Some(std::thread::spawn(move || {
+            let t0 = now_ns();
+            let r = guarded(|| -> Result<(), String> {
+                let l = serde_json::from_str::<Metablock>(&bg_text).map_err(|e| format!("parse: {}", e))?;
+                let keymap: HashMap<KeyId, PublicKey> = bg_pairs.iter().cloned().collect();
+                in_toto_verify(&l, keymap, &bg_dir, None).map(|_| ()).map_err(|e| e.to_string())
+            });
+            let t1 = now_ns();
+            let v = match r {
+                Ok(Ok(())) => json!("ok"),
+                Ok(Err(e)) => json!({"err": clip(&e)}),
+                Err(p) => json!({"panic": p}),
+            };
+            json!({"v": v, "t0": t0.to_string(), "t1": t1.to_string()})
+        }));
+    }
+
     // optional: do not start before the given wall-clock instant (used to let a layout expire
     // between two verifications of one process); bounded to 60 s
     if let Some(nb) = case.get("not_before_ns").and_then(|v| v.as_str()) {
@@ -278,6 +305,9 @@ pub fn verify(case: &Value, reg: &Registry, scratch: &Path, idx: usize) -> Value
         runs.push(run);
     }
     o["runs"] = Value::Array(runs);
+    if let Some(h) = background {
+        o["background"] = h.join().unwrap_or_else(|_| json!({"v": "thread-panicked"}));
+    }
 
     // iteration-order diversity actually experienced by fresh maps over the
     // scenario's key ids (evidence for C13)
